@@ -419,6 +419,9 @@ fn cmd_replay(args: &[String]) -> i32 {
             println!("VIOLATION property={} replay={}", rf.property, path);
             return 1;
         }
+        if std::env::var("BWSIM_DUMP").is_ok() {
+            println!("event_log: {}", r.rr);
+        }
         if !r.mismatches.is_empty() && attempt + 1 == tries {
             println!("different violation now: {:?}", r.mismatches);
         }
